@@ -70,7 +70,7 @@ Print Assumptions C01_roots_of_broker_spec.
 
 (* Tie: a trace accepted by the executable acceptor is an execution of the model. *)
 Theorem C01_accepted_trace_is_execution : forall beh e0 want roots c0 tr a,
-  run_trace beh e0 want {| a_st := init roots c0; a_recv := 0; a_pend := false |} 0%N tr = (a, None) ->
+  run_trace beh e0 want {| a_st := init roots c0; a_recv := 0; a_pend := false; a_rets := [] |} 0%N tr = (a, None) ->
   reach beh e0 roots c0 (a_st a).
 Proof. exact accepted_trace_is_execution. Qed.
 Print Assumptions C01_accepted_trace_is_execution.
